@@ -134,7 +134,7 @@ Qed.
 
 (* ------------------------------------------------------------------ effects are exact *)
 Definition eff_exact (r : region) (e : eff) : Prop :=
-  e_moff e = e_woff e /\ e_woff e + e_mlen e <= r_size r /\ (e_wn e = e_mlen e \/ e_wn e = 0).
+  e_moff e = e_woff e /\ e_woff e + e_mlen e <= r_size r /\ e_wn e <= e_mlen e.
 
 Lemma weff_exact r ri a rel n : r_size r < W64 -> acc_inv r a -> rel + n <= a_len a -> eff_exact r (weff ri a rel n).
 Proof.
@@ -171,6 +171,14 @@ Proof.
     apply checked_sub_Some in E. destruct E as [-> Hc]. destruct fderr; cbn [o_effs].
     + effs_done. unfold eff_exact; cbn. rewrite H2. rewrite bm_at_exact by lia. repeat split; lia.
     + effs_done. apply weff_exact; [exact Hsz|exact Hinv|lia].
+  - (* OReadFromFdFault: the bytes in front of the fault are written, the whole target is marked *)
+    destruct (checked_sub (a_len a) addr) as [l|] eqn:E; [|apply Forall_nil].
+    apply checked_sub_Some in E. destruct E as [-> Hc].
+    destruct ((N.min (a_len a - addr) cnt =? 0) || (a_off a + addr + N.min (a_len a - addr) cnt <=? fault)) eqn:G;
+      cbn [o_effs done].
+    + effs_done. apply weff_exact; [exact Hsz|exact Hinv|lia].
+    + effs_done. apply orb_false_iff in G. destruct G as [_ G]. apply N.leb_gt in G.
+      unfold eff_exact; cbn. rewrite H2. rewrite bm_at_exact by lia. repeat split; lia.
   - (* ORead .. OWriteAllTo: no effects *) destruct (blen =? 0); [apply Forall_nil|]. destruct (a_len a <=? addr); apply Forall_nil.
   - destruct (blen =? 0); [apply Forall_nil|]. destruct (a_len a <=? addr); apply Forall_nil.
   - destruct (checked_add addr sz); [|apply Forall_nil]. destruct (a_len a <? n); [apply Forall_nil|]. destruct (negb _); apply Forall_nil.
@@ -284,7 +292,7 @@ Proof.
   rewrite Hr in Hr0. inversion Hr0; subst r0; clear Hr0.
   assert (Hro : region_ok r). { unfold wf in Hwf. rewrite Forall_forall in Hwf. apply Hwf. eapply nth_error_In; eauto. }
   destruct Hro as (Hps & Hsz & Hlen).
-  assert (Hwn : e_wn e = e_mlen e) by lia.
+  assert (Hwn : e_wn e <= e_mlen e) by lia.
   split; [lia|]. rewrite D_apply_effs. apply orb_true_iff. right. apply existsb_exists. exists e. split; [exact Hin|].
   unfold hit. rewrite Hr, Nat.eqb_refl, Ht. cbn [andb].
   destruct (N.eqb_spec (e_mlen e) 0); [lia|]. cbn [negb andb].
@@ -468,9 +476,10 @@ Proof.
   eapply effs_precise; eauto.
 Qed.
 
-(* e_mlen = e_wn except for the failed descriptor read *)
+(* e_mlen = e_wn except for the failed descriptor read (failing at once: nothing written; or failing
+   part-way: a prefix of the target written) - there the WHOLE target is marked (io.rs:191-195) *)
 Definition is_fd_error (s : step) : bool :=
-  match s with SAcc _ _ (OReadFromFd _ _ _ true) => true | _ => false end.
+  match s with SAcc _ _ (OReadFromFd _ _ _ true) | SAcc _ _ (OReadFromFdFault _ _ _) => true | _ => false end.
 Lemma mlen_is_wn_lemma hm rs s rs' out : wf rs -> is_reset s = false -> is_fd_error s = false ->
   run_step hm rs s = (rs', out) -> forall e, In e (o_effs out) -> e_mlen e = e_wn e.
 Proof.
@@ -515,4 +524,29 @@ Proof.
       destruct (g_write_loop _ rs addr blen 0 []) as [t effs]. destruct (t =? 0); destruct Hin.
     + destruct (find_idx rs addr 0) as [[i r]|]; [|destruct Hin]. unfold run_sop in Hin. cbn [a_kind root] in Hin.
       destruct (checked_add _ _); [|destruct Hin]. destruct (_ <? _); [destruct Hin|]. destruct (negb _); destruct Hin.
+Qed.
+
+(* every effect of every non-reset step: the marked range starts where the written range starts, covers
+   it, and lies inside the region (for the failed descriptor reads it is the whole target, of which a
+   prefix - possibly empty - was written) *)
+Lemma marked_covers_written_lemma hm rs s rs' out : wf rs -> is_reset s = false -> run_step hm rs s = (rs', out) ->
+  forall e, In e (o_effs out) ->
+  e_moff e = e_woff e /\ e_wn e <= e_mlen e /\
+  exists r, nth_error rs (e_r e) = Some r /\ e_woff e + e_mlen e <= r_size r.
+Proof.
+  intros Hwf Hr H e Hin. destruct (step_effs hm rs s rs' out Hwf Hr H) as [_ Hok].
+  unfold effs_ok in Hok. rewrite Forall_forall in Hok. destruct (Hok e Hin) as (r & Hn & Hm & Hb & Hw).
+  split; [exact Hm|]. split; [exact Hw|]. exists r. split; assumption.
+Qed.
+
+(* the read that fails part-way: exactly the bytes in front of the fault are written, the whole target is marked *)
+Lemma fault_read_effect_lemma ri hm a cnt addr fault l : a_kind a = KSlice -> checked_sub (a_len a) addr = Some l ->
+  let m := N.min l cnt in let t0 := a_off a + addr in
+  m <> 0 -> fault < t0 + m ->
+  run_sop ri hm a (OReadFromFdFault cnt addr fault) =
+  {| o_ok := false; o_count := 0;
+     o_effs := [{| e_r := ri; e_woff := t0; e_wn := fault - t0; e_moff := bm_at (a_bm a) addr; e_mlen := m |}] |}.
+Proof.
+  intros K E m t0 Hm Hf. unfold run_sop. rewrite K, E. fold m. fold t0.
+  destruct (N.eqb_spec m 0); [contradiction|]. destruct (N.leb_spec (t0 + m) fault); [lia|]. reflexivity.
 Qed.
